@@ -85,6 +85,9 @@ type replay struct {
 	// script is a sequence of answers to the generators\' draws and means
 	// something else once the generators change.
 	Harness string `json:"harness,omitempty"`
+	// Flaky: the violation reproduces in some executions of the script
+	// only, because the tree under test is nondeterministic by itself.
+	Flaky bool `json:"reproduces_in_some_executions_only,omitempty"`
 	// RunList: the violation depends on what the PROCESS executed before
 	// (state the library keeps outside its engines): the replay is this
 	// list of run indices executed in order in one fresh process.
@@ -138,6 +141,10 @@ var (
 	fScale = flag.Float64("scale", 1, "scale every phase budget (testing)")
 )
 
+// notReproducedMsg is the message of the first candidate violation that could
+// not be confirmed.
+var notReproducedMsg string
+
 func trouble(format string, a ...any) {
 	fmt.Printf("HARNESS-TROUBLE: "+format+"\n", a...)
 	os.Exit(2)
@@ -165,6 +172,7 @@ func main() {
 	hashesByPhase := []map[uint64]uint64{}
 	var viol *replay
 	var violPhase phase
+	var candidates []*replay // every worker stops at its own first violation
 
 	for _, ph := range phases {
 		secs := int(float64(ph.Secs) * *fScale)
@@ -180,6 +188,9 @@ func main() {
 			ev.merge(st)
 			if st.Violation != nil && (viol == nil || st.Violation.Run < viol.Run) {
 				viol, violPhase = st.Violation, ph
+			}
+			if st.Violation != nil {
+				candidates = append(candidates, st.Violation)
 			}
 		}
 		info["runs"] = runs
@@ -225,7 +236,23 @@ func main() {
 	}
 	exit := 0
 	if viol != nil {
-		exit = handleViolation(viol, violPhase, scratch, ev)
+		// the earliest candidate first; if it cannot be confirmed in fresh
+		// processes (a tree that is nondeterministic by itself makes
+		// confirmation a matter of luck), up to three more candidates of
+		// other workers are tried before the batch is declared undecidable
+		sort.Slice(candidates, func(a, b int) bool { return candidates[a].Run < candidates[b].Run })
+		exit = -1
+		for i, c := range candidates {
+			if i >= 4 {
+				break
+			}
+			if exit = handleViolation(c, violPhase, scratch, ev); exit >= 0 {
+				break
+			}
+		}
+		if exit < 0 {
+			trouble("%s", notReproducedMsg)
+		}
 	}
 	ev.wall = time.Since(start).Seconds()
 	ev.write(filepath.Join(*fOut, "evidence", *fProp+".json"))
@@ -536,7 +563,20 @@ func handleViolation(v *replay, ph phase, scratch string, ev *evidence) int {
 			fmt.Printf("VIOLATION property=%s replay=%s\n", *fProp, path)
 			return 1
 		}
-		trouble("violation %q of run %d did not reproduce in a fresh process (got %q), neither alone nor after the runs its worker had executed before it: harness nondeterminism, not reported as a violation; file kept at %s", v.Class, v.Run, ro.Class, path)
+		// The tree under test may be nondeterministic by itself (map
+		// iteration order that reaches results, goroutines or randomness
+		// of its own): the same choices then violate in some executions
+		// only.  An answer that differs from the reference was produced by
+		// the library, whatever the schedule - it is evidence like a race
+		// report is - but it is reported only if the same script violates
+		// again in at least one of eight more fresh processes.
+		if code, ok := reportFlaky(v, ph, scratch, path, ev); ok {
+			return code
+		}
+		if notReproducedMsg == "" {
+			notReproducedMsg = fmt.Sprintf("violation %q of run %d did not reproduce in a fresh process (got %q), neither alone (10 attempts) nor after the runs its worker had executed before it (and neither did up to three further candidates): harness nondeterminism, not reported as a violation; file kept at %s", v.Class, v.Run, ro.Class, path)
+		}
+		return -1
 	}
 	// minimise
 	args := []string{"-shrink", path}
@@ -556,7 +596,13 @@ func handleViolation(v *replay, ph phase, scratch string, ev *evidence) int {
 		// fall back to the unminimised, confirmed run
 		os.WriteFile(path, b, 0o644)
 		if ro, err = replayFile(ph, scratch, path); err != nil || !core.SameClass(ro.Class, v.Class) {
-			trouble("minimised and original replay both failed to reproduce %q", v.Class)
+			if code, ok := reportFlaky(v, ph, scratch, path, ev); ok {
+				return code
+			}
+			if notReproducedMsg == "" {
+				notReproducedMsg = fmt.Sprintf("minimised and original replay both failed to reproduce %q", v.Class)
+			}
+			return -1
 		}
 	}
 	// final file: minimised script + human-readable rendering
@@ -586,6 +632,38 @@ func handleViolation(v *replay, ph phase, scratch string, ev *evidence) int {
 	fmt.Printf("violation class: %s\n%s\n", final.Class, tail(firstN(final.Detail, 4000), 4000))
 	fmt.Printf("VIOLATION property=%s replay=%s\n", *fProp, path)
 	return 1
+}
+
+// reportFlaky handles a violation whose script violates in some executions
+// only.  The tree under test may be nondeterministic by itself (map iteration
+// order that reaches results, goroutines or randomness of its own).  An answer
+// that differs from the reference was produced by the library, whatever the
+// schedule - it is evidence like a race report is - but it is reported only if
+// the same script violates again in at least one of eight more fresh
+// processes.
+func reportFlaky(v *replay, ph phase, scratch, path string, ev *evidence) (int, bool) {
+	hits := 0
+	var seen *replayOutcome
+	for try := 0; try < 8; try++ {
+		r2, err := replayFile(ph, scratch, path)
+		if err == nil && core.SameClass(r2.Class, v.Class) {
+			hits++
+			seen = r2
+		}
+	}
+	if hits == 0 {
+		return 0, false
+	}
+	final := *v
+	final.Class, final.Detail = seen.Class, seen.Detail
+	final.Flaky = true
+	final.Shrunk = map[string]any{"replays_that_reproduced_the_violation": hits, "replays_tried": 8, "note": "the same script violates in some executions only: the tree under test is not deterministic (not minimised)"}
+	fb, _ := json.MarshalIndent(&final, "", " ")
+	os.WriteFile(path, fb, 0o644)
+	ev.violations = 1
+	fmt.Printf("violation class: %s (the same script reproduced it in %d of 8 more fresh processes: the tree under test is not deterministic by itself)\n%s\n", final.Class, hits, firstN(final.Detail, 4000))
+	fmt.Printf("VIOLATION property=%s replay=%s\n", *fProp, path)
+	return 1, true
 }
 
 // runListOutcome executes the given run indices in order in ONE fresh worker
